@@ -11,6 +11,7 @@ the save/load history."""
 import copy
 import os
 import random
+from fractions import Fraction as F
 
 from model import build, fingerprint as FP, gen
 from sim import glob as G
@@ -40,7 +41,7 @@ ASSUMPTIONS = [
     "nothing is asserted about the bytes a failed or crashed save leaves behind",
 ]
 COMPONENTS = {"real": ["partitura.io.exportmatch", "partitura.io.importmatch", "partitura.io.matchfile_base / matchlines_v0 / matchlines_v1 / matchfile_utils", "musicanalysis.performance_codec (time maps, matched notes)", "score.add_measures/tie_notes/find_tuplets"], "stub": ["raw file layer (SimFS)", "line-level channel disturbances applied by the harness between writer and reader"]}
-PROBES = ("second_generation", "controls_from_midi_file", "second_generation_after_edit", "auto_unfold", "line_duplicated", "blank_lines", "conflicting_deletion", "conflicting_insertion", "ornament_entry", "deletion_entry", "insertion_entry", "pickup", "timesig_change", "ties", "grace", "pedal_lines", "fault_in_flight", "fixture_v0", "fixture_v1", "reader_on_torn_file")
+PROBES = ("durations_as_sums", "second_generation", "controls_from_midi_file", "second_generation_after_edit", "auto_unfold", "line_duplicated", "blank_lines", "conflicting_deletion", "conflicting_insertion", "ornament_entry", "deletion_entry", "insertion_entry", "pickup", "timesig_change", "ties", "grace", "pedal_lines", "fault_in_flight", "fixture_v0", "fixture_v1", "reader_on_torn_file")
 
 FIXTURE_DIRS = ("/repo/tests/data/match",)
 
@@ -199,7 +200,7 @@ def generate(seed, tier, cfg):
         if x < 0.2:
             ops.append({"k": "save"})
         elif x < 0.5:
-            ops.append({"k": "disturb", "dup": [o.randrange(0, 10**6) for _ in range(o.choice((1, 2, 4)))], "blank": [o.randrange(0, 10**6) for _ in range(o.choice((0, 1, 2)))], "conflict": o.choice((None, None, "deletion", "insertion"))})
+            ops.append({"k": "disturb", "dup": [o.randrange(0, 10**6) for _ in range(o.choice((1, 2, 4)))], "blank": [o.randrange(0, 10**6) for _ in range(o.choice((0, 1, 2)))], "conflict": o.choice((None, None, "deletion", "insertion")), "sums": o.random() < 0.4})
         else:
             ops.append({"k": "load"})
     ops.append({"k": "load"})
@@ -351,6 +352,27 @@ def disturb(text, spec, res, align):
     for x in spec.get("blank", []):
         lines.insert(1 + x % len(lines), "")  # never before the version header, which must stay the first line
         res.probe("blank_lines")
+    if spec.get("sums"):
+        # the same durations in the other notation of the format: a sum of note values (5/16 = 1/4+1/16), as data sets
+        # made with other tools have it
+        import re as _re
+
+        def as_sum(m_):
+            a, b = int(m_.group(2)), int(m_.group(3))
+            terms = []
+            bit = 1
+            while bit <= a:
+                if a & bit:
+                    terms.append(F(bit, b))
+                bit <<= 1
+            if len(terms) < 2:
+                return m_.group(0)
+            res.probe("durations_as_sums")
+            return m_.group(1) + "+".join("%d/%d" % (t.numerator, t.denominator) for t in sorted(terms, reverse=True)) + m_.group(4)
+
+        for i, l in enumerate(lines):
+            if l.startswith("snote("):
+                lines[i] = _re.sub(r"^(snote\([^,]+,\[[^\]]*\],-?\d+,[^,]+,[^,]+,)([0-9]+)/([0-9]+)(,)", as_sum, l)
     c = spec.get("conflict")
     if c == "deletion":
         # a deletion line for a score note that also has a match: take the snote of a match line
@@ -502,6 +524,22 @@ def execute(case, keep_log=False):
         else:
             res.violation("O3-nonmutation", "save", "matchfile_from_alignment changed its arguments: %s" % "; ".join(FP.diff_snapshots(snap0, s1)), site="arguments")
         snap0 = s1
+    # the score note lines read as text: the span in beats (OnsetInBeats..OffsetInBeats) is the notated duration -
+    # judged when the beat unit is the same throughout, so that a span in beats has one meaning
+    bts = set(x["beat_type"] for x in asc["parts"][0]["timesigs"])
+    if len(bts) == 1:
+        import re as _re
+
+        bt = bts.pop()
+        for l_ in ref_text.splitlines():
+            m_ = _re.match(r"^snote\(([^,]+),\[[^\]]*\],-?\d+,[^,]+,[^,]+,([0-9]+)(?:/([0-9]+))?,(-?[0-9.]+),(-?[0-9.]+),\[", l_)
+            if not m_:
+                continue
+            dur = F(int(m_.group(2)), int(m_.group(3) or 1))
+            span = float(m_.group(5)) - float(m_.group(4))
+            if abs(span - float(dur * bt)) > 2e-4:
+                res.violation("A3-score", "save", "score note line %s: OnsetInBeats %s to OffsetInBeats %s is %.4f beats, its Duration %s is %.4f beats (beat unit 1/%d)" % (m_.group(1), m_.group(4), m_.group(5), span, dur, float(dur * bt), bt), site="line:offset-in-beats")
+                break
     ref_bytes = ref_text.encode("utf-8")
     fs = SimFS(chunk=kn["chunk"])
     fs.expect_transfer(len(ref_bytes))
